@@ -91,6 +91,10 @@ def gen_inputs(rng):
         final = f"[{final}, {r.choice(top.all('L'))}.len()]"
     if r.chance(0.15):
         final = "{ " + final + " }"  # a toplevel block evaluates to its last expression
+    else:
+        # (Garden has no statement separator: an input that begins with `(` or `[` would, in the
+        # one-program submission, continue the previous input's last expression as a call)
+        final = f"let zfinal = {final} zfinal"
     inputs.append([final])
     return inputs
 
